@@ -31,6 +31,7 @@ type Ctx struct {
 	LockInvPkg map[string]*types.Package
 	Lemmas    []*Lemma
 	Axioms    []Clause
+	Mismatch  []string // contracts that no longer fit the code (function or instruction site gone)
 	ChanInvs  map[string]*ChanInv // structkey|field
 	LemmaPkg  map[string]*packages.Package
 	SpecFiles []*SpecFile
@@ -323,7 +324,9 @@ func (c *Ctx) addSpecFile(sf *SpecFile, p *packages.Package) error {
 				ct.Extern = false
 				ct.Opts["iface"] = "true"
 			} else if _, ok := c.Funcs[key]; !ok {
-				return fmt.Errorf("CONTRACT-ERROR %s: no function %q in package %s", sf.Path, ct.Key, p.PkgPath)
+				// the code no longer has the function this contract was written for
+				c.Mismatch = append(c.Mismatch, fmt.Sprintf("CONTRACT-ERROR %s: no function %q in package %s", sf.Path, ct.Key, p.PkgPath))
+				continue
 			}
 		} else {
 			ct.Extern = true
